@@ -551,6 +551,7 @@ func c18Replay(kind string, raw json.RawMessage) string {
 }
 
 func init() {
+	globalsDumpFn = globalsDump
 	core.RacePass = C18FreeRun
 	core.Register(&core.Prop{
 		ID:    "C18",
